@@ -9,8 +9,10 @@ import (
 	"flag"
 	"fmt"
 	"go/ast"
+	"go/build"
 	"go/parser"
 	"go/token"
+	"go/types"
 	"os"
 	"path/filepath"
 	"sort"
@@ -29,6 +31,7 @@ func main() {
 			fmt.Println(err)
 			os.Exit(1)
 		}
+		mapRanges = findMapRanges(dir, ents)
 		for _, e := range ents {
 			name := e.Name()
 			if e.IsDir() || !strings.HasSuffix(name, ".go") || strings.HasSuffix(name, "_test.go") {
@@ -45,6 +48,62 @@ func main() {
 		}
 	}
 	fmt.Printf("instrumented files=%d sites=%d lockdecls=%d\n", files, total, locks)
+}
+
+// mapRanges holds, per file path, the byte offsets [start,end) of the range expressions that are
+// maps with an ordered key type: the iteration order of a Go map is randomised per execution,
+// which (with a yield before every statement and early exits from such loops) makes the number of
+// scheduler steps, and so the whole schedule, differ between two executions of one seed. The
+// instrumenter routes these loops through simrt.Ordered, where the order is the sorted one or,
+// under the scheduler, a permutation drawn from the choice stream.
+var mapRanges map[string][][2]int
+
+func findMapRanges(dir string, ents []os.DirEntry) map[string][][2]int {
+	out := map[string][][2]int{}
+	fset := token.NewFileSet()
+	var files []*ast.File
+	ctx := build.Default
+	ctx.CgoEnabled = true
+	for _, e := range ents {
+		name := e.Name()
+		if e.IsDir() || !strings.HasSuffix(name, ".go") || strings.HasSuffix(name, "_test.go") {
+			continue
+		}
+		if ok, err := ctx.MatchFile(dir, name); err != nil || !ok {
+			continue
+		}
+		f, err := parser.ParseFile(fset, filepath.Join(dir, name), nil, 0)
+		if err != nil {
+			continue
+		}
+		files = append(files, f)
+	}
+	info := &types.Info{Types: map[ast.Expr]types.TypeAndValue{}}
+	conf := types.Config{FakeImportC: true, Error: func(error) {}, Importer: nil}
+	_, _ = conf.Check(dir, fset, files, info) // errors (unresolved imports) are expected and ignored
+	for _, f := range files {
+		ast.Inspect(f, func(n ast.Node) bool {
+			rs, ok := n.(*ast.RangeStmt)
+			if !ok {
+				return true
+			}
+			tv, ok := info.Types[rs.X]
+			if !ok || tv.Type == nil {
+				return true
+			}
+			m, ok := tv.Type.Underlying().(*types.Map)
+			if !ok {
+				return true
+			}
+			if b, ok := m.Key().Underlying().(*types.Basic); !ok || b.Info()&(types.IsOrdered) == 0 {
+				return true
+			}
+			pos, end := fset.Position(rs.X.Pos()), fset.Position(rs.X.End())
+			out[pos.Filename] = append(out[pos.Filename], [2]int{pos.Offset, end.Offset})
+			return true
+		})
+	}
+	return out
 }
 
 func instrument(path string) (int, int, error) {
@@ -106,6 +165,7 @@ func instrument(path string) (int, int, error) {
 		return ok
 	}
 	cptrs := 0
+	nmaps := 0
 	wrapC := func(c *ast.CallExpr) {
 		e := c.Args[0]
 		a, b := fset.Position(e.Pos()).Offset, fset.Position(e.End()).Offset
@@ -163,6 +223,10 @@ func instrument(path string) (int, int, error) {
 		}
 		return true
 	})
+	for _, r := range mapRanges[path] {
+		list = append(list, ins{r[0], "simrt.Ordered("}, ins{r[1], ")"})
+		nmaps++
+	}
 	// package clause: add the import on the same line
 	pkgEnd := fset.Position(f.Name.End()).Offset
 	list = append(list, ins{pkgEnd, `; import simrt "github.com/onflow/crypto/simrt"`})
@@ -184,5 +248,5 @@ func instrument(path string) (int, int, error) {
 		res = bytes.ReplaceAll(res, []byte("sync.Once"), []byte("simrt.Once"))
 		res = append(res, []byte("\nvar _ sync.Locker\n")...)
 	}
-	return len(list) - 1 - 2*cptrs, locks, os.WriteFile(path, res, 0o644)
+	return len(list) - 1 - 2*cptrs - 2*nmaps, locks, os.WriteFile(path, res, 0o644)
 }
